@@ -7,7 +7,7 @@ names, files sharing fragments with F, empty / malformed / binary files, non-.ja
 and files and directories made unreadable (real permission faults: the harness is re-executed as uid 65534
 through setpriv because the sandbox user is root). The entities and call links whose file is F must be the
 same in every context."""
-import collections, json, os, random, shutil, stat, subprocess
+import collections, re, json, os, random, shutil, stat, subprocess
 from vlib import common as C, genjava as G, scan as S
 from checks import c07
 
@@ -85,6 +85,44 @@ def restricted(resp, fpath):
     return c07.canon(nodes, edges)
 
 
+def path_suffix_collision(run, h, stats):
+    """The recorded finding C08:path-suffix-collision, reproduced on purpose: identities of expression entities are
+    SHA-256(kind ++ text ++ absolute path) without a separator, so `a/b` in <root>/<root>/X.java and `a/b<root>` in
+    <root>/X.java have one identity (the nested path ends with the other file's path). Any *other* effect of the
+    sibling on the nested file is reported under its own signature."""
+    import tempfile
+    base = tempfile.mkdtemp(prefix="c08x", dir="/tmp")
+    try:
+        root = os.path.join(base, "p")
+        comps = [c for c in root.split("/") if c]
+        if not all(re.fullmatch(r"[A-Za-z_][A-Za-z0-9_]*", c) for c in comps):
+            return
+        nested_dir = os.path.join(root, *comps)
+        os.makedirs(nested_dir)
+        nested = os.path.join(nested_dir, "X.java")
+        open(nested, "w").write("class X { int f(int a, int b) { return a/b; } }\n")
+        alone = h.call(op="scan", dir=root, graph="ps", timeout=120)
+        if alone.get("outcome") != "ok":
+            return
+        ref = restricted(alone, nested)
+        top = os.path.join(root, "X.java")
+        open(top, "w").write("class X { int g(int a, int b, %s) { return a/b/%s; } }\n" % (", ".join("int " + c for c in dict.fromkeys(comps)), "/".join(comps)))
+        both = h.call(op="scan", dir=root, graph="ps", timeout=120)
+        run.count(("path-suffix", root))
+        stats["path_suffix_reproductions"] += 1
+        if both.get("outcome") != "ok":
+            return
+        got = restricted(both, nested)
+        if got != ref:
+            miss = [json.loads(ref[0][i]) for i in set(ref[0]) - set(got[0])]
+            only_div = all(m.get("type") in ("div_expression", "binary_expression") for m in miss) and not (set(got[0]) - set(ref[0]))
+            sig = "C08:path-suffix-collision" if only_div else "C08:context-changes-file-report"
+            run.violation(sig, "a file whose absolute path ends with another file's absolute path loses the expression `a/b` when that other file contains `a/b%s` (%d entities hidden)" %
+                          (root, len(miss)), dict(nested=os.path.relpath(nested, root), top="X.java", root=root, hidden=miss[:3]))
+    finally:
+        shutil.rmtree(base, ignore_errors=True)
+
+
 def run(run):
     global NUM_WORKERS
     C.build_driver()
@@ -100,6 +138,7 @@ def run(run):
     stats = collections.Counter()
     have_setpriv = shutil.which("setpriv") is not None
     try:
+        path_suffix_collision(run, h, stats)
         for case in range(4 if quick else 30):
             root = C.scratch("c08")
             os.chmod(root, 0o755)
